@@ -101,10 +101,10 @@ func vmCIDRJSON(s string) map[string]any {
 }
 
 type vmRoute struct {
-	Dst                       string
-	RW, LW, RT                bool
-	Pool, Node, NodeIP        string
-	Same, LocalWl, Borrowed   bool
+	Dst                     string
+	RW, LW, RT              bool
+	Pool, Node, NodeIP      string
+	Same, LocalWl, Borrowed bool
 }
 
 var vmPoolTypes = map[string]proto.IPPoolType{"vxlan": proto.IPPoolType_VXLAN, "ipip": proto.IPPoolType_IPIP, "none": proto.IPPoolType_NO_ENCAP, "": proto.IPPoolType_NONE}
@@ -265,7 +265,7 @@ func (d *vmRt) random(t *testing.T, rnd *rand.Rand) {
 		switch c := rnd.Intn(20); {
 		case c < 7: // remote block or borrowed remote address
 			n := nodes[rnd.Intn(len(nodes))]
-			blk := 2 + rnd.Intn(4)
+			blk := 1 + rnd.Intn(5) // block 1 is usually local: a RouteUpdate may flip its owner without a RouteRemove
 			key := fmt.Sprintf("b%d", blk)
 			pool := poolOf(key)
 			r := vmRoute{RW: true, Pool: pool, Node: n, NodeIP: nodeIP(n)}
@@ -292,17 +292,23 @@ func (d *vmRt) random(t *testing.T, rnd *rand.Rand) {
 				Same: pool != "none" && pool != "" && crossSubnet[key] && sameSubnet[n]})
 		case c < 11: // local block, local workload, local /32 block
 			key := "b1"
+			flip := rnd.Intn(4) == 0 // a usually-remote block becomes local (owner flip, no RouteRemove)
+			if flip {
+				key = "b2"
+			}
 			pool := poolOf(key)
 			r := vmRoute{LW: true, Pool: pool, Node: vmRtHost, NodeIP: vmRtLocalAddr, Same: crossSubnet[key]}
-			switch rnd.Intn(4) {
-			case 0:
+			switch c := rnd.Intn(4); {
+			case flip:
+				r.Dst = "10.0.2.0/26"
+			case c == 0:
 				r.Dst = "10.0.1.0/26"
-			case 1:
+			case c == 1:
 				r.Dst = "10.0.1.64/26"
-			case 2:
+			case c == 2:
 				r.Dst = fmt.Sprintf("10.0.1.%d/32", 2+rnd.Intn(3))
 				r.LocalWl = rnd.Intn(3) > 0
-			case 3:
+			default:
 				r.Dst = "10.0.9.1/32" // a /32 block
 				r.LocalWl = rnd.Intn(2) == 0
 			}
@@ -352,19 +358,30 @@ func TestVerifMgrRoutes(t *testing.T) {
 	logrus.SetLevel(logrus.PanicLevel)
 	lg := vmOpen(t)
 	d := &vmRt{log: lg}
+	// a panic of a real manager is logged as a "panic" event, which the trace specification never accepts
+	guarded := func(f func()) {
+		defer func() {
+			if rec := recover(); rec != nil {
+				d.log.Emit("panic", map[string]any{"msg": fmt.Sprint(rec)})
+			}
+		}()
+		f()
+	}
 	for _, b := range vmBehaviours(t) {
-		d.start(t)
-		flushed := false
-		for _, op := range b {
-			flushed = d.step(t, op)
-		}
-		if !flushed {
-			d.flush(t)
-		}
+		guarded(func() {
+			d.start(t)
+			flushed := false
+			for _, op := range b {
+				flushed = d.step(t, op)
+			}
+			if !flushed {
+				d.flush(t)
+			}
+		})
 	}
 	seed := vmSeed()
 	for i := 0; i < vmN(); i++ {
-		d.random(t, rand.New(rand.NewSource(seed*1000003+int64(i))))
+		guarded(func() { d.random(t, rand.New(rand.NewSource(seed*1000003+int64(i)))) })
 	}
 	lg.Close(t)
 }
